@@ -336,6 +336,18 @@ func runLock(c *vlib.Ctx) error {
 			}
 		}
 	}
+	// growth: the daemon lifecycle around the lock (real `daemon run` / `stop` processes)
+	ndaemon := argInt(c, "daemons", 3)
+	for k := 0; k < ndaemon; k++ {
+		cid++
+		in := daemonIn{Kind: "daemon", End: daemonEnds()[k%4], Seed: int(c.Rand.Int31())}
+		recs := runDaemonEpisode(c, self, cid, in)
+		emit(recs)
+		c.AddExtra("daemon_episodes", 1)
+		if k == 0 {
+			c.Sample(map[string]any{"end": in.End, "events": describeDaemonEvents(recs[0]["out"].(map[string]any)["events"].([]map[string]any))})
+		}
+	}
 	for k := 0; k < races; k++ {
 		cid++
 		in := raceIn{Kind: "race", N: 3 + c.Rand.Intn(4), Rounds: 10 + c.Rand.Intn(20), Kills: c.Rand.Intn(4), HoldMs: c.Rand.Intn(4), Seed: int(c.Rand.Int31())}
@@ -363,7 +375,11 @@ func replayLock(c *vlib.Ctx) error {
 	}
 	vlib.Decode(doc["begin"], &rec)
 	var recs []map[string]any
-	if rec.In["kind"] == "avail" {
+	if rec.In["kind"] == "daemon" {
+		var in daemonIn
+		vlib.Decode(rec.In, &in)
+		recs = runDaemonEpisode(c, selfPath(), 1, in)
+	} else if rec.In["kind"] == "avail" {
 		var in availIn
 		vlib.Decode(rec.In, &in)
 		recs = runAvail(c, selfPath(), 1, in)
